@@ -16,7 +16,7 @@ from pyvolutionary.abstract import OptimizationAbstract
 from pyvolutionary.models import BaseOptimizationConfig
 
 INF = float("inf")
-ALPHABET = [-INF, -1.5, 0.0, 2.0, INF]
+ALPHABET = [-INF, -1.5, 0.0, 2.0, 2.0000000000000004, INF]      # incl. two costs one ulp apart (near-tie, not a tie)
 
 
 class Mini(OptimizationAbstract):
@@ -219,6 +219,7 @@ def work(item, opts):
     for _ in range(item.get("n_rand", 0)):
         size = rng.choice([1, 2, 5, 7, 20, 50, 200])
         pool = [rng.choice([-INF, INF, 0.0, -0.0, 1e-300, -1e300]) for _ in range(3)] + [round(rng.gauss(0, 3), rng.choice([0, 1, 6])) for _ in range(size)]
+        pool += [pool[-1] + 1e-13, pool[-1] * (1 + 2e-16), pool[-2] - 1e-15]      # near-ties
         costs = [rng.choice(pool) for _ in range(size)]
         check_pop(bag, costs, rng, n_values=sorted({0, 1, size, rng.randint(0, size), rng.randint(0, size)}))
         bag["pops"] += 1
